@@ -440,6 +440,38 @@ func (fr *Frame) execSelect(in *ssa.Select) {
 			out.Tuple = append(out.Tuple, TV(fr.freshTyped("selv", elem)))
 		}
 	}
+	// a send case of the select: the same at-call assertions and call counters as a plain send statement
+	// ("send:<channel>"), the assertion for every execution that reaches the select (the case may be chosen), the
+	// counter only when it is chosen
+	for i, s := range in.States {
+		if s.Dir != types.SendOnly {
+			continue
+		}
+		name := "send:" + valueSourceName(s.Chan)
+		if c := fr.C; c != nil {
+			for _, aa := range c.Asserts {
+				if aa.Callee == name {
+					ctx := fr.ctxHere()
+					vars := map[string]EV{"$0": valToEV(fr.val(s.Send), s.Send.Type())}
+					goal := Implies(fr.cur, ctx.with(vars).Bool(aa.Clause.E))
+					fr.R.addObl("assert", aa.Callee+":"+aa.Clause.Label, goal, aa.Clause.Src, &aa.Clause, in.Pos())
+					fr.R.addCover("assert-"+aa.Clause.Label+"-reachable", fr.cur)
+				}
+			}
+		}
+		if c := fr.R.Contract; c != nil {
+			for _, tr := range c.Tracks {
+				if tr.Callee == name {
+					key := "calls." + tr.Alias
+					cnt, ok := fr.st.ghost[key]
+					if !ok {
+						cnt = IntLit(0)
+					}
+					fr.st.ghost[key] = fr.define("cnt", Ite(Eq(idx, IntLit(int64(i))), Add(cnt, IntLit(1)), cnt))
+				}
+			}
+		}
+	}
 	fr.env[in] = out
 }
 
